@@ -1044,4 +1044,280 @@ theorem phase3 {w w2 : World} (hinv : Inv S v0 w)
   intro k
   simp [D]
 
+/-! ### phases 5–7: removing the backup copies does not touch the base -/
+
+theorem sat_forEach_any {α} {f : α → M Unit} {P : World → Prop} :
+    ∀ (l : List α) (w : World), P w → (∀ x ∈ l, ∀ w, P w → Sat (f x) w (fun w' _ => P w')) →
+      Sat (forEachCollect f l) w (fun w' _ => P w')
+  | [], w, h, _ => by
+    unfold forEachCollect
+    exact Sat.pure h
+  | x :: xs, w, h, hstep => by
+    unfold forEachCollect
+    apply Sat.bind
+    apply Sat.attempt
+    apply (hstep x (by simp) w h).mono
+    intro w1 r1 h1
+    simp only
+    apply Sat.bind
+    apply (sat_forEach_any xs w1 h1 (fun y hy => hstep y (List.mem_cons_of_mem _ hy))).mono
+    intro w2 r2 h2
+    cases r2 with
+    | error e => exact h2
+    | ok b => exact Sat.pure h2
+
+/-- what the clean-up of the backup keeps: disk well-formed, tracked map, empty fault plan, base view -/
+structure Fin (S : Sim cfg) (w : World) (vb : View) (w' : World) : Prop where
+  good : S.G w'.fs
+  infos : w'.infos = w.infos
+  faults : w'.faults = []
+  base : S.view .base w'.fs = vb
+
+theorem sat_cleanupAct {w0 w : World} {vb : View} {k : Key} (h : Fin S w0 vb w) (hk : PKey k) (hne : k ≠ []) :
+    Sat (cleanupAct cfg (kp k)) w (fun w' _ => Fin S w0 vb w') := by
+  unfold cleanupAct
+  apply Sat.bind
+  apply (sat_lexists (S := S) (s := .backup) h.good hk h.faults).mono
+  intro w1 r1 ⟨hs1, _, _⟩
+  have h1 : Fin S w0 vb w1 := ⟨hs1.fs ▸ h.good, hs1.infos.trans h.infos, hs1.faults.trans h.faults, by rw [hs1.fs]; exact h.base⟩
+  cases r1 with
+  | error e => exact h1
+  | ok o =>
+    cases o with
+    | none => exact Sat.pure h1
+    | some i =>
+      simp only
+      apply (sat_primUnit_chg (S := S) (s := .backup) (K := (· = k)) h1.good (fun m' r hc => by
+        obtain ⟨g, o, f⟩ := S.remove_frame h1.good hk hne hc
+        exact ⟨g, o, fun j hj => f j hj⟩)).mono
+      intro w2 _ hc
+      exact ⟨hc.good, hc.infos.trans h1.infos, hc.faults.trans h1.faults, hc.other.trans h1.base⟩
+
+theorem sat_removeBackupPaths {w0 w : World} {vb : View} {ps : List Path} (h : Fin S w0 vb w)
+    (hps : ∀ p ∈ ps, ∃ k, PKey k ∧ k ≠ [] ∧ p = kp k) :
+    Sat (removeBackupPaths cfg ps) w (fun w' _ => Fin S w0 vb w') := by
+  unfold removeBackupPaths
+  apply sat_forEach_any (P := Fin S w0 vb) _ w h
+  intro x hx w' h'
+  obtain ⟨k, hk, hne, rfl⟩ := hps x ((sortBy_perm _ ps).mem_iff.mp hx)
+  exact sat_cleanupAct h' hk hne
+
+/-! ### Rollback restores the base -/
+
+theorem Inv.mem_iff {w : World} (h : Inv S v0 w) {p : Path} {x : Option Info} :
+    (p, x) ∈ w.infos ↔ w.infos.lookup p = some x :=
+  ⟨lookup_of_mem h.nodup, mem_of_lookup⟩
+
+theorem Inv.ts_kind {w : World} (h : Inv S v0 w) {k : Key} {i : Info} (hk : PKey k) (hts : TS w k i) :
+    i.kind = .dir ∨ i.kind = .file := by
+  obtain ⟨n, hn, hfor, _⟩ := h.ts_node hk hts
+  cases n with
+  | dir mt => exact Or.inl hfor.1
+  | file c mt => exact Or.inr hfor.1
+  | link t mt => exact absurd hn h.v0_nolink
+
+theorem Inv.tsfile_ne_root {w : World} (h : Inv S v0 w) {k : Key} (hk : PKey k) (hf : TSFile w k) : k ≠ [] := by
+  obtain ⟨i, hts, hkind⟩ := hf
+  obtain ⟨c, mtb, htarget, _⟩ := h.file_target hk hts hkind
+  intro e; subst e
+  obtain ⟨mt, hroot⟩ := h.v0_root
+  rw [htarget] at hroot; cases hroot
+
+/-- T01 (Rollback): from a state satisfying the transaction invariant, on healthy filesystems,
+Rollback puts every key of the base view except the root back to its original node -/
+theorem sat_rollback {w : World} (hinv : Inv S v0 w) (hnf : w.faults = []) :
+    Sat (rollback cfg) w (fun w' _ => S.G w'.fs ∧ w'.faults = [] ∧
+      ∀ k, k ≠ [] → S.view .base w'.fs k = v0 k) := by
+  unfold rollback
+  apply Sat.bind
+  apply Sat.getW
+  simp only
+  apply Sat.bind
+  -- the first loop
+  have hc1 := (sat_classify (cfg := cfg) (S := S) w.infos {} w hinv.good hnf hinv.keys).elim
+  have hc2 := (sat_classify_nd (cfg := cfg) w.infos {} w hinv.nodup
+    ⟨List.nodup_nil, List.nodup_nil, List.nodup_nil, (by intro p h; cases h), (by intro p h; cases h), (by intro p h; cases h)⟩).elim
+  cases hrun : classify cfg w.infos {} w with
+  | mk w1 r1 =>
+    rw [hrun] at hc1 hc2
+    obtain ⟨hs1, pl, hr1, hcl⟩ := hc1
+    subst hr1
+    have hpnd := hc2 pl rfl
+    apply Sat.of_eq hrun
+    simp only
+    -- the plan, in terms of keys
+    have hrb : ∀ p, p ∈ pl.removeBase ↔ ∃ k, PKey k ∧ p = kp k ∧ TN w k ∧ S.view .base w.fs k ≠ none := by
+      intro p
+      rw [hcl.removeBase p]
+      constructor
+      · rintro (h | ⟨k, hk, rfl, hm, hp⟩)
+        · cases h
+        · exact ⟨k, hk, rfl, hinv.mem_iff.mp hm, hp⟩
+      · rintro ⟨k, hk, rfl, htn, hp⟩
+        exact Or.inr ⟨k, hk, rfl, hinv.mem_iff.mpr htn, hp⟩
+    have hds : ∀ p, p ∈ pl.dirs ↔ ∃ k, PKey k ∧ p = kp k ∧ TSDir w k := by
+      intro p
+      rw [hcl.dirs p]
+      constructor
+      · rintro (h | ⟨i, hm, hroot, hkind⟩)
+        · cases h
+        · obtain ⟨k, hk, rfl⟩ := hinv.keys p (some i) hm
+          exact ⟨k, hk, rfl, fun e => hroot ((kp_eq_root_iff hk).mpr e), i, hinv.mem_iff.mp hm, hkind⟩
+      · rintro ⟨k, hk, rfl, hne, i, hts, hkind⟩
+        exact Or.inr ⟨i, hinv.mem_iff.mpr hts, fun e => hne ((kp_eq_root_iff hk).mp e), hkind⟩
+    have hfs : ∀ p, p ∈ pl.files ↔ ∃ k, PKey k ∧ p = kp k ∧ TSFile w k := by
+      intro p
+      rw [hcl.files p]
+      constructor
+      · rintro (h | ⟨i, hm, hroot, hkind⟩)
+        · cases h
+        · obtain ⟨k, hk, rfl⟩ := hinv.keys p (some i) hm
+          exact ⟨k, hk, rfl, i, hinv.mem_iff.mp hm, hkind⟩
+      · rintro ⟨k, hk, rfl, i, hts, hkind⟩
+        exact Or.inr ⟨i, hinv.mem_iff.mpr hts,
+          fun e => hinv.tsfile_ne_root hk ⟨i, hts, hkind⟩ ((kp_eq_root_iff hk).mp e), hkind⟩
+    have hls : pl.links = [] := by
+      apply List.eq_nil_iff_forall_not_mem.mpr
+      intro p hp
+      rcases (hcl.links p).mp hp with h | ⟨i, hm, _, hkind⟩
+      · cases h
+      · obtain ⟨k, hk, rfl⟩ := hinv.keys p (some i) hm
+        rcases hinv.ts_kind hk (hinv.mem_iff.mp hm) with h | h <;> rw [hkind] at h <;> cases h
+    -- phase 1
+    apply Sat.bind
+    apply (phase1 (cfg := cfg) hinv hnf hs1 pl.removeBase hrb hpnd.rb).mono
+    intro w2 r2 ⟨hr2, hm2⟩
+    subst hr2
+    simp only
+    -- phase 2
+    apply Sat.bind
+    apply (phase2 (cfg := cfg) hinv hm2 pl.dirs hds hpnd.ds).mono
+    intro w3 r3 ⟨hr3, hm3⟩
+    subst hr3
+    simp only
+    -- phase 3
+    apply Sat.bind
+    apply (phase3 (cfg := cfg) hinv hm3 pl.files hfs hpnd.fs).mono
+    intro w4 r4 ⟨hr4, hm4⟩
+    subst hr4
+    simp only
+    -- phase 4: there are no symlinks to restore
+    rw [hls]
+    apply Sat.bind
+    have h4 : Sat (forEachCollect (restoreLinkAct cfg w.infos) (sortStrings [])) w4
+        (fun w' r => w' = w4) := by
+      simp only [sortStrings, sortBy, forEachCollect]
+      exact Sat.pure rfl
+    apply h4.mono
+    intro w5 r5 h5
+    subst h5
+    have hfin : Fin S w (S.view .base w5.fs) w5 := ⟨hm4.good, hm4.infos, hm4.faults, rfl⟩
+    have hend : ∀ w' : World, S.view .base w'.fs = S.view .base w5.fs → ∀ k, k ≠ [] → S.view .base w'.fs k = v0 k := by
+      intro w' hf k hkne
+      rw [hf]
+      by_cases hD : PKey k ∧ (TN w k ∨ TSDir w k ∨ TSFile w k)
+      · exact hm4.done k hD
+      · rw [hm4.rest k hD]
+        by_cases hk : PKey k
+        · rcases tracked_cases w k with hu | htn | ⟨i, hts⟩
+          · exact hinv.frame k hk hu
+          · exact absurd ⟨hk, Or.inl htn⟩ hD
+          · rcases hinv.ts_kind hk hts with hkd | hkd
+            · exact absurd ⟨hk, Or.inr (Or.inl ⟨hkne, i, hts, hkd⟩)⟩ hD
+            · exact absurd ⟨hk, Or.inr (Or.inr ⟨i, hts, hkd⟩)⟩ hD
+        · have h1 : S.view .base w.fs k = none := by
+            apply Classical.byContradiction
+            intro h; exact hk (S.pkey hinv.good h)
+          have h2 : v0 k = none := by
+            apply Classical.byContradiction
+            intro h; exact hk (hinv.v0_pkey h)
+          rw [h1, h2]
+    have hkeys : ∀ (ps : List Path), (∀ p ∈ ps, ∃ k, PKey k ∧ p = kp k ∧ k ≠ []) →
+        ∀ p ∈ ps, ∃ k, PKey k ∧ k ≠ [] ∧ p = kp k := by
+      intro ps h p hp
+      obtain ⟨k, hk, hp', hne⟩ := h p hp
+      exact ⟨k, hk, hne, hp'⟩
+    cases r5 with
+    | error e => exact ⟨hfin.good, hfin.faults, hend w5 rfl⟩
+    | ok e4 =>
+      simp only
+      apply Sat.bind
+      apply (sat_removeBackupPaths (S := S) (ps := []) hfin (by intro p hp; cases hp)).mono
+      intro w6 r6 hf6
+      cases r6 with
+      | error e => exact ⟨hf6.good, hf6.faults, hend w6 hf6.base⟩
+      | ok e5 =>
+        simp only
+        apply Sat.bind
+        apply (sat_removeBackupPaths (S := S) (ps := pl.files) hf6 (by
+          intro p hp
+          obtain ⟨k, hk, rfl, hf⟩ := (hfs p).mp hp
+          exact ⟨k, hk, hinv.tsfile_ne_root hk hf, rfl⟩)).mono
+        intro w7 r7 hf7
+        cases r7 with
+        | error e => exact ⟨hf7.good, hf7.faults, hend w7 hf7.base⟩
+        | ok e6 =>
+          simp only
+          apply Sat.bind
+          apply (sat_removeBackupPaths (S := S) (ps := pl.dirs) hf7 (by
+            intro p hp
+            obtain ⟨k, hk, rfl, hd⟩ := (hds p).mp hp
+            exact ⟨k, hk, hd.1, rfl⟩)).mono
+          intro w8 r8 hf8
+          cases r8 with
+          | error e => exact ⟨hf8.good, hf8.faults, hend w8 hf8.base⟩
+          | ok e7 =>
+            simp only
+            apply Sat.bind
+            apply Sat.modifyW
+            simp only
+            apply Sat.pure
+            exact ⟨hf8.good, hf8.faults, hend { w8 with infos := [] } hf8.base⟩
+
+/-! ### transactions -/
+
+theorem Inv.with_faults {w : World} (h : Inv S v0 w) (f : List Fault) : Inv S v0 { w with faults := f } :=
+  ⟨h.good, h.orig, h.keys, h.nodup, h.frame, h.absent, h.saved, h.anc⟩
+
+/-- one transaction: a history, then Rollback -/
+def runTx (cfg : Cfg) (w : World) (ops : List Op) : World := (rollback cfg (runOps cfg w ops)).1
+
+/-- the base view below the root -/
+def SameBelowRoot (v v' : View) : Prop := ∀ k, k ≠ [] → v' k = v k
+
+/-- T01, generic form: on healthy filesystems, after any covered history Rollback restores every
+key of the base view except the root -/
+theorem tx_restores {w : World} (hg : S.G w.fs) (hinfos : w.infos = []) (hnf : w.faults = [])
+    (ops : List Op) (hcov : CoveredHist cfg S w ops) :
+    S.G (runTx cfg w ops).fs ∧ (runTx cfg w ops).infos = [] ∧ (runTx cfg w ops).faults = [] ∧
+      SameBelowRoot (S.view .base w.fs) (S.view .base (runTx cfg w ops).fs) := by
+  have hk := history_keeps (cfg := cfg) ops w (Inv.init hg hinfos) hcov
+  have hr := (sat_rollback (cfg := cfg) hk.inv (hk.faults.trans hnf)).elim
+  exact ⟨hr.1, rollback_resets_infos cfg _, hr.2.1, hr.2.2⟩
+
+/-- histories of several transactions, each covered in the state it starts from -/
+def CoveredTxs (cfg : Cfg) (S : Sim cfg) : World → List (List Op) → Prop
+  | _, [] => True
+  | w, ops :: rest => CoveredHist cfg S w ops ∧ CoveredTxs cfg S (runTx cfg w ops) rest
+
+/-- T01 for any number of consecutive transactions on the same BackupFS -/
+theorem txs_restore : ∀ (txs : List (List Op)) (w : World), S.G w.fs → w.infos = [] → w.faults = [] →
+    CoveredTxs cfg S w txs →
+    SameBelowRoot (S.view .base w.fs) (S.view .base (txs.foldl (runTx cfg) w).fs)
+  | [], w, _, _, _, _ => fun _ _ => rfl
+  | ops :: rest, w, hg, hi, hf, hc => by
+    obtain ⟨g1, i1, f1, h1⟩ := tx_restores (cfg := cfg) hg hi hf ops hc.1
+    have h2 := txs_restore rest (runTx cfg w ops) g1 i1 f1 hc.2
+    intro k hk
+    rw [List.foldl_cons, h2 k hk, h1 k hk]
+
+/-- T08 (second half): whatever the fault plan did to the operations of a covered history, once
+the filesystems are healthy again Rollback restores the base -/
+theorem tx_restores_after_faults {w : World} (hg : S.G w.fs) (hinfos : w.infos = [])
+    (ops : List Op) (hcov : CoveredHist cfg S w ops) :
+    SameBelowRoot (S.view .base w.fs)
+      (S.view .base (rollback cfg { runOps cfg w ops with faults := [] }).1.fs) := by
+  have hk := history_keeps (cfg := cfg) ops w (Inv.init hg hinfos) hcov
+  exact ((sat_rollback (cfg := cfg) (hk.inv.with_faults []) rfl).elim).2.2
+
 end BFS
